@@ -19,7 +19,7 @@ import (
 	"verifharness/vk"
 )
 
-const rule = "operation sequences (generated up to length 8 with a tail up to 16; exhaustive up to length 3 quick / 4 thorough) over {Refresh(valid A sync), Refresh(valid B async), Refresh(invalid early), Refresh(invalid late x3), Destroy, log via tag at a drawn level, write via handle, RegisterTag(new|existing), GetLogger(existing|new from pool)}; non-trivial = a Destroy followed by logging or another Refresh, or a failed Refresh followed by anything; distinct by the op sequence"
+const rule = "operation sequences (generated up to length 8 with a tail up to 16; exhaustive up to length 3 quick / 5 thorough) over {Refresh(valid A sync), Refresh(valid B async), Refresh(invalid early), Refresh(invalid late x3), Destroy, log via tag at a drawn level, write via handle, RegisterTag(new|existing), GetLogger(existing|new from pool)}; non-trivial = a Destroy followed by logging or another Refresh, or a failed Refresh followed by anything; distinct by the op sequence"
 
 var (
 	t1      = log.RegisterTag("_c16_t1")
@@ -437,7 +437,7 @@ func TestC16_Exhaustive(t *testing.T) {
 	vk.Rule(rule)
 	L := 3
 	if vk.Thorough() {
-		L = 4
+		L = 5
 	}
 	shard, shards := vk.Shard()
 	k := len(opNames)
